@@ -332,6 +332,22 @@ func runC17x(c string) string {
 	case "fold":
 		s := bigslice.Fold(c17typed, func(acc, v int64) int64 { return acc + v })
 		return drain(s.Reader(0, readers()), s, dest, 2)
+	case "foldint", "foldstr":
+		// Fold over other key types (accum.go has an accumulator per key kind): keys mapped to int / string and back
+		var keyed, back bigslice.Slice
+		var folded bigslice.Slice
+		if head[0] == "foldint" {
+			keyed = bigslice.Map(c17typed, func(k, v int64) (int, int64) { return int(k), v })
+			folded = bigslice.Fold(keyed, func(acc, v int64) int64 { return acc + v })
+			back = bigslice.Map(folded, func(k int, v int64) (int64, int64) { return int64(k), v })
+		} else {
+			keyed = bigslice.Map(c17typed, func(k, v int64) (string, int64) { return fmt.Sprintf("k%05d", k), v })
+			folded = bigslice.Fold(keyed, func(acc, v int64) int64 { return acc + v })
+			back = bigslice.Map(folded, func(k string, v int64) (int64, int64) { return int64(atoi(strings.TrimLeft(k[1:], "0") + "")), v })
+		}
+		r1 := keyed.Reader(0, readers())
+		r2 := folded.Reader(0, []sliceio.Reader{r1})
+		return drain(back.Reader(0, []sliceio.Reader{r2}), back, dest, 2)
 	case "writer":
 		var log []string
 		s := bigslice.WriterFunc(c17typed, func(shard int, state int, err error, ks, vs []int64) error {
@@ -443,6 +459,42 @@ func runC17x(c string) string {
 		bad2 := sc3.Scan(ctx, &k, &s)
 		e2 := sc3.Err() != nil
 		return fmt.Sprintf("end calls=0:0:%s:0 | rows=%s | altered=0 | arity=%v,%v type=%v,%v", res, strings.Join(rows, ";"), bad1, e1, bad2, e2)
+	case "scannerv":
+		// vector scans: every DEST entry is the length of the column vectors of one Scanv call
+		sc := sliceio.NewScanner(typ2, ups[0])
+		ctx := context.Background()
+		var rows []string
+		for i := 0; i < 100000; i++ {
+			k := dest[i%len(dest)]
+			ks, vs := make([]int64, k), make([]int64, k)
+			n, ok := sc.Scanv(ctx, ks, vs)
+			if n < 0 || n > k {
+				return fmt.Sprintf("end calls=%d:%d:-:0 | rows= | altered=0", k, n)
+			}
+			for j := 0; j < n; j++ {
+				rows = append(rows, fmt.Sprintf("%d,%d", ks[j], vs[j]))
+			}
+			if !ok {
+				break
+			}
+		}
+		res := errClass(sc.Err())
+		if res == "-" {
+			res = "eof"
+		}
+		return fmt.Sprintf("end calls=0:0:%s:0 | rows=%s | altered=0", res, strings.Join(rows, ";"))
+	case "readall":
+		var ks, vs []int64
+		err := sliceio.ReadAll(context.Background(), ups[0], &ks, &vs)
+		var rows []string
+		for j := range ks {
+			rows = append(rows, fmt.Sprintf("%d,%d", ks[j], vs[j]))
+		}
+		res := errClass(err)
+		if res == "-" {
+			res = "eof"
+		}
+		return fmt.Sprintf("end calls=0:0:%s:0 | rows=%s | altered=0", res, strings.Join(rows, ";"))
 	case "closing":
 		return drain(sliceio.NewClosingReader(ups[0]), typ2, dest, 2)
 	case "cogroup":
